@@ -1505,3 +1505,74 @@ def w2f_tail_guard(chk, repo, rid):
         chk.ob(rid, 'tail appended iff end < len(seq)', repo.loc(f, t), ok,
                f"the tail of the substituted peptide is appended under `{unparse(t)}`: when the reassigned W is the second-to-last residue the last residue is dropped "
                "(the W>F form is not a form of any peptide of the run without the option)", key=f.qual + '::tail-guard', fn=f.qual)
+
+
+def no_stale_loop_locals(chk, repo, rid, qual, loop_pick, what, floor=1, reviewed=None):
+    """R-FRESH: inside the chosen loop, a plain local that the loop body assigns (per-element state: a flag, an id parsed from the
+    element) is assigned in THIS iteration on every path before it is read - otherwise an element that takes a path without the
+    assignment is processed with the value left behind by the previous element.  Accumulators are not per-element state and are
+    skipped: names updated with an augmented assignment, read in their own right-hand side, or used as a receiver of a method call /
+    subscript store.  Decided by a forward must-assigned analysis over one iteration (sem.must_set_flow on the loop body)."""
+    from sa import sem
+    import copy as _cp
+    chk.rule(rid, f"R-FRESH: per-element locals of {what} are assigned in every iteration before they are read", floor)
+    f = repo.func(qual)
+    chk.uses(f)
+    loops = [l for l in ast.walk(f.node) if isinstance(l, (ast.For, ast.While)) and loop_pick(l)]
+    if len(loops) != 1:
+        chk.undecided(rid, what, f.where, f"{len(loops)} candidate loops found", key=f"{f.qual}::stale-locals", fn=f.qual)
+        return
+    lp = loops[0]
+    body = lp.body
+    stored = {t.id for st in ast.walk(lp) if isinstance(st, (ast.Assign, ast.AnnAssign)) and getattr(st, 'value', None) is not None
+              for t in ast.walk(st.targets[0] if isinstance(st, ast.Assign) else st.target) if isinstance(t, ast.Name) and isinstance(t.ctx, ast.Store)}
+    tg = {t.id for t in ast.walk(lp.target) if isinstance(t, ast.Name)} if isinstance(lp, ast.For) else set()
+    accum = set()
+    for n in ast.walk(lp):
+        if isinstance(n, ast.AugAssign) and isinstance(n.target, ast.Name):
+            accum.add(n.target.id)
+        if isinstance(n, ast.Assign) and len(n.targets) == 1 and isinstance(n.targets[0], ast.Name) and any(isinstance(x, ast.Name) and x.id == n.targets[0].id for x in ast.walk(n.value)):
+            accum.add(n.targets[0].id)
+        if isinstance(n, ast.Call) and isinstance(n.func, ast.Attribute) and isinstance(n.func.value, ast.Name) and n.func.attr in ('append', 'add', 'extend', 'update', 'setdefault', 'appendleft'):
+            accum.add(n.func.value.id)
+        if isinstance(n, ast.Subscript) and isinstance(n.ctx, ast.Store) and isinstance(n.value, ast.Name):
+            accum.add(n.value.id)
+        if isinstance(n, (ast.For, ast.comprehension)) and n is not lp:
+            accum |= {t.id for t in ast.walk(n.target) if isinstance(t, ast.Name)}          # inner loop variables are bound by their loop
+        if isinstance(n, ast.ExceptHandler) and n.name:
+            accum.add(n.name)
+        if isinstance(n, ast.withitem) and n.optional_vars is not None:
+            accum |= {t.id for t in ast.walk(n.optional_vars) if isinstance(t, ast.Name)}
+    # a While loop whose driver is re-bound at the end of the body (`x = next(it, None)`) carries x on purpose
+    if isinstance(lp, ast.While):
+        accum |= {n.id for n in ast.walk(lp.test) if isinstance(n, ast.Name)}
+    cands = sorted(stored - tg - accum - set(reviewed or {}))
+    syn = ast.parse('def _it():\n    for _e in _es:\n        pass').body[0]
+    syn.body[0].body = _cp.deepcopy(body)
+    ast.fix_missing_locations(syn)
+    stale = []
+    for v in cands:
+        def tr(st_, S, v=v):
+            if isinstance(st_, (ast.Assign, ast.AnnAssign)) and getattr(st_, 'value', None) is not None and \
+                    any(isinstance(t, ast.Name) and t.id == v and isinstance(t.ctx, ast.Store) for t in ast.walk(st_.targets[0] if isinstance(st_, ast.Assign) else st_.target)):
+                return frozenset(S | {'set'})
+            return S
+        cfg_s, st_s = sem.must_set_flow(syn, tr)
+        for n_ in cfg_s.nodes:
+            if n_.ast is None or n_.kind not in ('stmt', 'test', 'iter'):
+                continue
+            S = st_s.get(n_.id)
+            if S is None or 'set' in S:
+                continue
+            if n_.kind == 'stmt' and not isinstance(n_.ast, (ast.Assign, ast.AnnAssign, ast.AugAssign, ast.Expr, ast.Return, ast.Raise, ast.Assert, ast.Delete)):
+                continue
+            root_ = n_.ast.iter if n_.kind == 'iter' else n_.ast
+            if n_.kind == 'iter' and n_.ast is syn.body[0]:
+                continue
+            reads = [x for x in ast.walk(root_) if isinstance(x, ast.Name) and x.id == v and isinstance(x.ctx, ast.Load)]
+            if reads:
+                stale.append(f"{v} (read at line {getattr(n_.ast, 'lineno', '?')} of the loop body)")
+                break
+    chk.ob(rid, f"{f.name}: every per-element local is assigned before it is read in each iteration", repo.loc(f, lp), not stale,
+           f"{sorted(stale)} can be read in an iteration that did not assign it: the element is processed with the value left behind by the previous element",
+           key=f"{f.qual}::stale-locals", fn=f.qual)
